@@ -202,7 +202,7 @@ def extract():
     v["maxNameSize"] = grab("maxNameSize", kr, r"const\s+MAX_NAME_SIZE\s*:\s*usize\s*=\s*(\d+);", intval)
     v["privateKeyCtLen"] = grab("privateKeyCtLen", kr, r"const\s+PRIVATE_KEY_CT_LEN\s*:\s*usize\s*=\s*(\d+);", intval)
     v["publicKeyLen"] = grab("publicKeyLen", kr, r"const\s+PUBLIC_KEY_LEN\s*:\s*usize\s*=\s*(\d+);", intval)
-    v["encodedPkLen"] = grab("encodedPkLen", kr, r"impl\s+TryFrom<&str>\s+for\s+EncodedPk.*?s\.len\(\)\s*!=\s*(\d+)", intval)
+    v["encodedPkLen"] = grab("encodedPkLen", kr, r"impl\s+TryFrom<&str>\s+for\s+EncodedPk(?:(?!\bimpl\b).)*?\b\w+\.len\(\)\s*!=\s*(\d+)", intval)
     v["hashLen"] = grab("hashLen", noise, r"const\s+HASH_LEN\s*:\s*usize\s*=\s*(\d+);", intval)
     v["dhLen"] = grab("dhLen", noise, r"const\s+DH_LEN\s*:\s*usize\s*=\s*(\d+);", intval)
     v["protocolName"] = grab("protocolName", noise, r'(?:SymmetricState::new\(\s*|const\s+\w+\s*:\s*&(?:\'static\s+)?(?:str|\[u8\])\s*=\s*b?)"(Noise_[^"]+)"', lambda m: m.group(1))
